@@ -211,8 +211,11 @@ func (t *baseTrigger) unmarshal(sessionAssets flows.SessionAssets, e *baseTrigge
 	t.history = e.History
 	t.triggeredOn = e.TriggeredOn
 
-	if t.contact, err = flows.ReadContact(sessionAssets, e.Contact, missing); err != nil {
-		return fmt.Errorf("unable to read contact: %w", err)
+	// a trigger without a contact is marshalled with a null contact (the member itself stays required)
+	if string(e.Contact) != "null" {
+		if t.contact, err = flows.ReadContact(sessionAssets, e.Contact, missing); err != nil {
+			return fmt.Errorf("unable to read contact: %w", err)
+		}
 	}
 
 	if e.Environment != nil {
